@@ -1,5 +1,5 @@
 \* repaired; one stream, 13 scripts of every class, duplicates, three heights
-CONSTANTS Streams <- {1} Choices <- ChOneQ BadBatches <- MCBad InitHeight = 1 MaxHeight = 3
+CONSTANTS Streams = {1} Choices <- ChOneQ BadBatches <- MCBad InitHeight = 1 MaxHeight = 3
   InputCap = 2 OutCap = 1 MaxDup = 2 MaxExtra = 2 MaxGot = 2
   FixNilState = TRUE FixBlock = TRUE FixReFin = TRUE SeqWindow = 8 BufBound = 8 Mut = "none"
 INIT Init
